@@ -65,7 +65,7 @@ class C37(dst.Check):
     ]
     real_vs_stub = {'SMPI online run + TI tracer (instr_paje_*, instr_smpi)': 'real', 'smpireplaymain / smpi_replay.cpp': 'real',
                     'MPI application': 'real (generated plan interpreter sim/mpicoll.c, replay mode)'}
-    budgets = {'quick': dict(runs=1500, wall=50), 'thorough': dict(runs=30000, wall=800)}
+    budgets = {'quick': dict(runs=1500, wall=40), 'thorough': dict(runs=30000, wall=800)}
     max_reported = 12
     shrink_budget = 120
 
